@@ -209,8 +209,32 @@ pub fn run(thorough: bool, seed: u64, driver: &str, rep: &mut Report) {
                             rep.count("trees_with_negative_zero_lengths");
                         }
                     }
+                    // labels are data: characters that are markup, format-string or shell syntax elsewhere pass through untouched
+                    if i % 3 == 0 && spice_names(&mut rng, &mut t, 40) > 0 {
+                        rep.count("trees_with_markup_like_labels");
+                    }
                     trees.push(t);
                     rep.count("random_trees");
+                }
+                // drawings far larger than any ordinary figure: wedges stay proportional to leaf counts however thin they get
+                // (a broom of k clades of m tips each, and a random shape); every sixth job draws one
+                if s % 6 == 0 {
+                    let (k, m) = (rng.range(8, 14), rng.range(90, 160));
+                    let mut broom = Rose::leaf();
+                    for _ in 0..k {
+                        let mut clade = Rose::leaf();
+                        for _ in 0..m {
+                            clade.kids.push(Rose::leaf());
+                        }
+                        broom.kids.push(clade);
+                    }
+                    label(&mut rng, &mut broom, &LabelOpts { len_mode: LenMode::All, ..Default::default() });
+                    trees.push(broom);
+                    let big = rng.range(1500, 2600);
+                    let mut t = random_shape(&mut rng, big);
+                    label(&mut rng, &mut t, &LabelOpts { len_mode: LenMode::All, ..Default::default() });
+                    trees.push(t);
+                    rep.count_n("large_trees", 2);
                 }
             }
             for t in trees.iter() {
